@@ -354,6 +354,20 @@ func init() {
 		p.timers[p.argStr(args[0])] = p.argInt(args[1])
 		return nil
 	})
+	reg(v("vIOCopyN"), func(p *Path, _ *frame, _ *ssa.Function, args []Value) Value {
+		if n, ok := p.ghost[fmt.Sprintf("__iocopy#%d", p.argInt(args[0]))]; ok {
+			return n
+		}
+		return p.ctx.Const(64, ^uint64(0))
+	})
+	reg(v("vVolatile"), func(p *Path, _ *frame, _ *ssa.Function, args []Value) Value {
+		ptr := args[0].(*Value)
+		if p.volatile == nil {
+			p.volatile = map[*Value]bool{}
+		}
+		p.volatile[ptr] = true
+		return nil
+	})
 	reg(v("vMapPerm"), func(p *Path, _ *frame, _ *ssa.Function, args []Value) Value {
 		p.mapPerm = args[0].(*Term).IsTrue()
 		return nil
@@ -644,6 +658,11 @@ func (p *Path) stubByPackage(pp string, fn *ssa.Function, args []Value) (Value, 
 		case "Sprintf", "Sprint", "Sprintln":
 			return p.freshStr("fmt"), true
 		case "Errorf":
+			if sv, ok := args[0].(StrV); ok {
+				if txt, ok := p.strText(sv); ok {
+					p.notes = append(p.notes, "fmt.Errorf: "+txt)
+				}
+			}
 			return p.newError(p.freshStr("errorf")), true
 		case "Printf", "Println", "Print", "Fprintf", "Fprintln":
 			return p.zeroResult(fn), true
@@ -778,6 +797,15 @@ func (p *Path) atomicStub(fn *ssa.Function, args []Value) (Value, bool) {
 	switch {
 	case strings.HasPrefix(n, "Load"):
 		s := slotOf()
+		if p.volatile[s] && !isValue {
+			// another goroutine may have changed the cell since the last access: every load reads a fresh 0/1
+			cur := (*s).(*Term)
+			fv := p.freshVar("volatile.load", cur.W)
+			k := p.varCount["volatile.load"] - 1
+			p.addInput(fmt.Sprintf("volatile.load#%d", k), fmt.Sprintf("u%d", cur.W), fv)
+			p.assume(c.Cmp(OpUle, fv, c.Const(cur.W, 1)))
+			*s = fv
+		}
 		if isValue {
 			if v, ok := p.sideTab[s]; ok {
 				return v, true
@@ -910,6 +938,27 @@ func (p *Path) ioCopy(fn *ssa.Function, args []Value) Value {
 	if src, ok := args[1].(Iface); ok {
 		if o, ok := src.V.(*nativeObj); ok && o.kind == "file" {
 			b := &Blob{Nil: p.ctx.False, ID: o.node.content}
+			if fn.Name() == "CopyN" {
+				// at most n bytes: exactly the file (n == size), the whole file and io.EOF (n > size),
+				// or a proper prefix of the content (n < size)
+				c := p.ctx
+				n := args[2].(*Term)
+				size := p.lenOf(b)
+				if p.branch(c.Eq(n, size), "io.CopyN n == size") {
+					p.writeTo(args[0], b)
+					return Tuple{size, Iface{}}
+				}
+				if p.branch(c.Cmp(OpSlt, size, n), "io.CopyN n > size") {
+					p.writeTo(args[0], b)
+					return Tuple{size, p.newError(p.strConst("EOF"))}
+				}
+				pre := c.UF("prefix", 32, o.node.content, n)
+				p.assume(c.Eq(c.ZExt(c.UF("slen", 32, pre), 64), n))
+				p.assume(c.Eq(c.Eq(pre, c.Const(32, 0)), c.Eq(n, c.Const(64, 0))))
+				pb := &Blob{Nil: c.False, ID: pre}
+				p.writeTo(args[0], pb)
+				return Tuple{n, Iface{}}
+			}
 			p.writeTo(args[0], b)
 			return Tuple{p.lenOf(b), Iface{}}
 		}
@@ -933,6 +982,7 @@ func (p *Path) ioCopy(fn *ssa.Function, args []Value) Value {
 	if p.branch(fail, "io.Copy error") {
 		err = p.newError(p.strConst("io.Copy failed (injected)"))
 	}
+	p.ghost[fmt.Sprintf("__iocopy#%d", k)] = n
 	// tell a model sink/reader about the transfer
 	if h, ok := p.ghost["__iocopy"]; ok {
 		p.call(nil, h, []Value{args[0], args[1], n})
